@@ -248,10 +248,15 @@ def _provenance(run, P):
             run.incomplete("IDX/remap-provenance", c, where(g), "unpack of _remap_grid_parse not found")
             continue
         idx_name = norm(un.targets[0].elts[2])
-        args = [norm(a) for a in un.value.args[:5]]
+        parse = P.func(f"{UT}:_remap_grid_parse")
+        pp = parse.params()
+        bound = dict(zip(pp, un.value.args))
+        bound.update({k.arg: k.value for k in un.value.keywords if k.arg})
+        want5 = ["source_data", "source_grid", "destination_grid", "coord_type", "remap_to"]
+        args = [norm(bound[p_]) if p_ in bound else None for p_ in want5]
         probs = []
-        if args != ["source_data", "source_grid", "destination_grid", "coord_type", "remap_to"]:
-            probs.append(f"_remap_grid_parse called with {args}")
+        if args != want5:
+            probs.append(f"_remap_grid_parse called with {dict(zip(want5, args))}")
         gdefs = LocalDefs(g.node)
 
         def uses_idx(e):
@@ -459,23 +464,53 @@ def _results(run, P):
         g = P.func(key)
         c = f"{g.key}:result"
         cons = [n for n in ast.walk(g.node) if isinstance(n, ast.Call) and (dotted(n.func) or [""])[-1] == "UxDataArray"]
-        probs = []
-        last = [st for st in iter_stmts(g.node.body) if isinstance(st, ast.Assign) and isinstance(st.targets[0], ast.Subscript) and norm(st.targets[0].value) == "destination_dims"]
-        if not (last and norm(last[0].targets[0].slice) == "-1" and norm(last[0].value) == "destination_dim"):
-            probs.append("the last dimension of the result is not renamed to the destination dimension")
-        base = [st for st in iter_stmts(g.node.body) if isinstance(st, ast.Assign) and norm(st.targets[0]) == "destination_dims"]
-        if not (base and norm(base[0].value) == f"list({g.params()[0]}.dims)"):
-            probs.append("result dims are not the source's dims")
+        probs, unknown = [], []
+        from ..astutil import InterDefs, dependence
+        I = InterDefs(P, g)
+        src = g.params()[0]
+
+        def varies_with_remap_to(h, e):
+            """the expression (in function h of the scope) depends, by data or control, on the caller's remap_to"""
+            dep = dependence(h.node)
+            names_ = {x.id for x in ast.walk(e) if isinstance(x, ast.Name)}
+            reach = set(names_)
+            for nm in names_:
+                reach |= dep.get(nm, set())
+            if h.node is g.node:
+                return "remap_to" in reach
+            # in a helper: one of the parameters it depends on receives something that depends on remap_to at the call sites
+            for prm in [p_ for p_ in h.params() if p_ in reach]:
+                for hh, ee in I.closure(h, ast.Name(id=prm, ctx=ast.Load())):
+                    if hh.node is g.node and any(isinstance(x, ast.Name) and x.id == "remap_to" for x in ast.walk(ee)):
+                        return True
+            return False
         if not cons:
             probs.append("no UxDataArray constructed")
         else:
-            kw = {k.arg: norm(k.value) for k in cons[0].keywords}
+            kwd = {k.arg: k.value for k in cons[0].keywords}
+            kw = {k_: norm(v_) for k_, v_ in kwd.items()}
             if kw.get("uxgrid") != "destination_grid":
                 probs.append(f"result attached to {kw.get('uxgrid')}, not to the destination grid")
-            if kw.get("dims") != "destination_dims":
-                probs.append("result dims not passed")
-            if kw.get("name") != f"{g.params()[0]}.name":
+            if kw.get("name") != f"{src}.name":
                 probs.append("name not carried over")
+            dims_e = kwd.get("dims")
+            if dims_e is None:
+                probs.append("result dims not passed")
+            else:
+                behind = I.closure(g, dims_e)
+                from_src = any(isinstance(x, ast.Attribute) and x.attr == "dims" and isinstance(x.value, ast.Name) and x.value.id == src for _h, e in behind for x in ast.walk(e))
+                names_behind = {(h.key, x.id) for h, e in behind for x in ast.walk(e) if isinstance(x, ast.Name)}
+                last_stores = [(h, st) for h, st in I.stmts() if isinstance(st, ast.Assign) and isinstance(st.targets[0], ast.Subscript) and norm(st.targets[0].slice) == "-1"
+                               and isinstance(st.targets[0].value, ast.Name) and (h.key, st.targets[0].value.id) in names_behind]
+                if not from_src:
+                    (unknown if any(isinstance(x, ast.Call) for _h, e in behind for x in ast.walk(e)) else probs).append("result dims are not the source's dims")
+                if not last_stores:
+                    if norm(dims_e) in (f"{src}.dims", f"list({src}.dims)"):
+                        probs.append("the last dimension of the result is not renamed to the destination dimension")
+                    else:
+                        unknown.append("no replacement of the last dimension found behind the dims argument")
+                elif not any(varies_with_remap_to(h, st.value) for h, st in last_stores):
+                    probs.append(f"the last dimension is set to {norm(last_stores[0][1].value)[:40]}, which does not depend on remap_to")
         # every return hands back the array computed by the low-level remap (no shortcut path returning the source data)
         low = "_nearest_neighbor" if key.startswith(NN) else "_inverse_distance_weighted_remap"
         defs = LocalDefs(g.node)
@@ -488,6 +523,8 @@ def _results(run, P):
             probs.append(f"{len(cons)} result constructions: expected one, fed by {low}")
         if probs:
             run.violation("IDX/remap-result", c, where(g), "; ".join(probs))
+        elif unknown:
+            run.incomplete("IDX/remap-result", c, where(g), "; ".join(unknown))
         else:
             run.holds("IDX/remap-result", c, where(g, cons[0]), "dims = source dims with the last replaced by the destination dimension; attached to the destination grid; every return fed by the low-level remap")
     for key in (f"{NN}:_nearest_neighbor_uxds", f"{IDW}:_inverse_distance_weighted_remap_uxds"):
